@@ -1342,7 +1342,12 @@ impl World {
                 match res {
                     Res::Ok => {
                         let dd = self.m.dir_mut(dir.vol, &dir.path).unwrap();
-                        dd.touched = true;
+                        // opening an existing file read-only (and closing it again) is not "touching" it: its entry
+                        // and its directory must stay byte-for-byte what they were
+                        let only_reading = exists_file && mode == M_RO;
+                        if !only_reading {
+                            dd.touched = true;
+                        }
                         let mut off = 0;
                         if !exists_file {
                             dd.ch.insert(
@@ -1359,7 +1364,9 @@ impl World {
                                 }),
                             );
                         } else if let Some(MNode::File(file)) = dd.ch.get_mut(&k) {
-                            file.touched = true;
+                            if !only_reading {
+                                file.touched = true;
+                            }
                             file.open = true;
                             match mode {
                                 M_TRUNC | M_CREATE_TRUNC => {
